@@ -203,9 +203,12 @@ def run(ctx: Ctx, tier: str) -> Result:
         if isinstance(tst, ast.Call) and norm(tst.func) == "isinstance" and len(tst.args) == 2:
             tys = [norm(x) for x in (tst.args[1].elts if isinstance(tst.args[1], ast.Tuple) else [tst.args[1]])]
             ret = [r for r in ast.walk(n) if isinstance(r, ast.Return)]
+            kws_ = [r.value.keywords[0].arg for r in ret if isinstance(r.value, ast.Call) and r.value.keywords]
+            # the arm's own field; an integer that does not fit the wire type may leave as its digits (string_value=str(value))
             kw = None
-            if ret and isinstance(ret[0].value, ast.Call) and ret[0].value.keywords:
-                kw = ret[0].value.keywords[0].arg
+            if kws_:
+                own = [k for k in kws_ if k != "string_value"] or kws_
+                kw = own[0] if len(set(own)) == 1 else "/".join(sorted(set(kws_)))
             arms.append((tys, kw, n))
     handled = [ty for tys, _, _ in arms for ty in tys]
     res.analysed["convert_value arms"] = [(tys, kw) for tys, kw, _ in arms]
@@ -239,11 +242,57 @@ def run(ctx: Ctx, tier: str) -> Result:
         else:
             res.fail(Finding("C08.TYPES", cv.qname, ty, cv.loc(),
                              "the attribute store can hold values of type %s but convert_value has no arm for it: the attribute reaches the wire without a value" % ty))
+    # what the store can hold also fits the wire type it is sent as: text that UTF-8 can encode, integers inside 64 bit, no
+    # element without a value inside an array (one attribute that does not must not cost the snapshot / the poll)
+    from .text_rule import _made_encodable
+    av_calls = [c for c in t.calls_in(cv) if any(e.endswith(".AnyValue") for e in t.resolve_call(c, cv).ext)]
+    for c in av_calls:
+        for k in c.keywords:
+            if k.arg == "string_value":
+                v = k.value
+                digits = isinstance(v, ast.Call) and isinstance(v.func, ast.Name) and v.func.id in ("str", "repr", "hex") and any(
+                    isinstance(tt, ast.Call) and norm(tt.func) == "isinstance" and "int" in norm(tt.args[1]) for tt, pol in paths.conditions(p, c, cv) if pol)
+                if _made_encodable(v) or digits or isinstance(v, ast.Constant):
+                    res.ok("C08.TYPES", {"string_value": norm(v)[:60]})
+                else:
+                    res.fail(Finding("C08.TYPES", cv.qname, c, cv.loc(c), "`%s` sends text as it is: an attribute (or resource) value holding a character UTF-8 cannot encode - a lone surrogate - "
+                                     "makes the conversion of the whole snapshot, and of every poll request, fail" % norm(c)[:60]))
+            if k.arg == "int_value":
+                rng = [c_ for c_, pol in paths.conditions(p, c, cv) if pol and any(
+                    (isinstance(n_, ast.BinOp) and isinstance(n_.op, ast.Pow) and norm(n_) in ("2 ** 63", "2 ** 64")) or
+                    (isinstance(n_, ast.Constant) and isinstance(n_.value, int) and abs(n_.value) in (2 ** 63, 2 ** 63 - 1)) or
+                    (isinstance(n_, ast.Attribute) and n_.attr == "bit_length") or
+                    (isinstance(n_, ast.Name) and "INT64" in n_.id.upper()) for n_ in ast.walk(c_))]
+                if rng:
+                    res.ok("C08.TYPES", {"int_value only inside 64 bit": norm(rng[0])[:60]})
+                else:
+                    res.fail(Finding("C08.TYPES", cv.qname, c, cv.loc(c), "`%s` sends every int as int_value: one that does not fit 64 bit (the attribute store accepts it) makes the "
+                                     "conversion of the whole snapshot / poll request fail" % norm(c)[:60]))
+    lf = [f for f in p.functions.values() if f.module.name == GRPC and f.name.endswith("__value_as_list")]
+    for f_ in lf:
+        for cp_ in t.nodes_in(f_, ast.ListComp):
+            el = cp_.elt
+            never_none = False
+            if isinstance(el, ast.Call):
+                tg_ = t.resolve_call(el, f_).repo
+                if tg_ and cv not in tg_:
+                    never_none = all(r.value is not None and (
+                        (isinstance(r.value, ast.Call) and any(e.endswith(".AnyValue") for e in t.resolve_call(r.value, g_).ext)) or
+                        (isinstance(r.value, ast.IfExp) and any(" is None" in norm(r.value.test) or " is not None" in norm(r.value.test) for _ in [0])))
+                        for g_ in tg_ for r in t.nodes_in(g_, ast.Return))
+            elif isinstance(el, (ast.BoolOp, ast.IfExp)):
+                never_none = any(isinstance(n_, ast.Call) and any(e.endswith(".AnyValue") for e in t.resolve_call(n_, f_).ext) for n_ in ast.walk(el))
+            if never_none:
+                res.ok("C08.TYPES", {"array elements always carry an AnyValue": norm(el)[:60]})
+            else:
+                res.fail(Finding("C08.TYPES", f_.qname, el, f_.loc(el), "an element converted to None (a cleaned sequence keeps None for an element that was not valid) is put into the "
+                                 "ArrayValue as it is: the message cannot be built and the whole snapshot / poll request is lost"))
     # element conversion of containers recurses into convert_value
     for helper, it in (("__value_as_list", None), ("__value_as_dict", None)):
         hf = [f for f in p.functions.values() if f.module.name == GRPC and f.name.endswith(helper)]
         need(len(hf) == 1, "%s not found" % helper)
-        rec = [c for c in t.calls_in(hf[0]) if cv in t.resolve_call(c, hf[0]).repo]
+        rec = [c for c in t.calls_in(hf[0]) if cv in t.resolve_call(c, hf[0]).repo or
+               any(cv in t.resolve_call(c2, g_).repo for g_ in t.resolve_call(c, hf[0]).repo for c2 in t.calls_in(g_))]
         comps = [n for n in t.nodes_in(hf[0], ast.ListComp)]
         if rec and comps and not any(g_.ifs for c_ in comps for g_ in c_.generators):
             res.ok("C08.TYPES", {helper: "element-wise, recursive"})
